@@ -152,7 +152,10 @@ class Env:
     # ---- inputs
     def str(self, name, cap, charset="printable", min_len=0):
         if self.mode == "replay":
-            v = VStr(bstr.lit(self.model_inputs[name]))
+            raw = self.model_inputs[name]
+            if isinstance(raw, str) and charset == "bytes":
+                raw = raw.encode("latin-1")  # one char per byte (models of binary inputs), not UTF-8
+            v = VStr(bstr.lit(raw))
             self.inputs[name] = ("str", v)
             return v
         s, cons = bstr.sym(name, cap)
@@ -376,6 +379,7 @@ def differential(files, vectors, native_map=None, K=6, N=24, lits=None, override
                 I.overrides[k] = f
         try:
             if fn.startswith("@"):
+                I.raw_args = list(args)  # the python values (binary inputs are latin-1 strings, not UTF-8 text)
                 r = composites[fn][0](I, [to_v(a) for a in args])
             else:
                 r = I.call(fn, [to_v(a) for a in args])
